@@ -518,6 +518,51 @@ def small_shard(task):
     return part
 
 
+# ---- literal spellings in every syntactic position: pure dump round trip (no reference parser needed) ----
+LIT_SPELLINGS = [("neg-int", "-1"), ("neg-int2", "-42"), ("neg-double", "-1.5"), ("double", "1.5"), ("double-e", "1e3"), ("double-dot", ".5"), ("uint", "1u"),
+                 ("hex", "0x1F"), ("neg-hex", "-0x1f"), ("dq-string", '"s"'), ("sq-string", "'s'"), ("bytes", 'b"x"'), ("raw", 'r"a"'), ("triple", '"""m"""'),
+                 ("escape", '"\\n\\""'), ("ident-digit", "x1"), ("bool", "true"), ("null", "null")]
+LIT_POSITIONS = [("alone", "{X}"), ("select", "{X} .f"), ("method", "{X} .f(a)"), ("method0", "{X} .f()"), ("index", "{X}[a]"), ("index-arg", "a[{X}]"), ("add-right", "a + {X}"),
+                 ("add-left", "{X} + a"), ("sub-right", "a - {X}"), ("mul-right", "a * {X}"), ("not", "!{X}"), ("neg", "- {X}"), ("list", "[{X}]"), ("list2", "[a, {X}]"),
+                 ("map-key", "{{{X}: a}}"), ("map-value", "{{a: {X}}}"), ("call-arg", "f({X})"), ("method-arg", "a.f({X})"), ("cond-c", "{X} ? a : b"), ("cond-l", "a ? {X} : b"),
+                 ("cond-r", "a ? b : {X}"), ("in-left", "{X} in a"), ("rel-right", "a < {X}"), ("field", "M{{f: {X}}}"), ("paren", "({X})"), ("paren-select", "({X}).f"),
+                 ("or-right", "a || {X}"), ("macro-body", "a.map(v, {X})")]
+
+
+def literal_texts(levels):
+    out = []
+    for cls, x in LIT_SPELLINGS:
+        for pname, tpl in LIT_POSITIONS:
+            t1 = tpl.format(X=x)
+            out.append((cls, pname, t1))
+            if levels >= 2:
+                for p2name, tpl2 in LIT_POSITIONS:
+                    if p2name in ("alone",):
+                        continue
+                    out.append((cls, f"{pname}>{p2name}", tpl2.format(X="(" + t1 + ")" if pname not in ("alone", "paren", "list", "list2", "call-arg", "map-key", "map-value") else t1)))
+    return out
+
+
+def literal_shard(task):
+    lo, hi, levels = task
+    part = runner.Part()
+    items = literal_texts(levels)[lo:hi]
+    for cls, pos, text in items:
+        o = rparse(text)
+        if o[0] != "T":
+            part.case(nontrivial=False)      # the parser rejects this spelling in this position: nothing to round-trip
+            part.outcome("literal:rejected")
+            continue
+        part.case()
+        mode, dumped = roundtrip(o[1])
+        part.outcome("literal:" + mode)
+        if mode != "ok":
+            part.violation("dump-roundtrip", f"dump:literal-spelling:{cls}:{pos.split('>')[0] if mode.startswith('raises') else pos.split('>')[-1]}:{mode}",
+                           {"check": "dump", "text": text, "space": "literals"}, f"parse({text!r}) dumps to {dumped!r}: {mode}")
+    part.space("literal spellings x positions (dump round trip)", 0, len(items))
+    return part
+
+
 def shape_shard(task):
     n, key, lo, hi, rots = task
     part = runner.Part()
@@ -603,7 +648,10 @@ def run(ctx):
             big += [(n, key, lo, min(size, lo + per), rots[n]) for lo in range(0, size, per)]
     ctx.run_shards(small_shard, small)
     ctx.run_shards(shape_shard, big)
-    card = {"adjacent-operators": N_ADJACENT, "terms<=1op x all atoms": N_TERMS1, "keyword positions": N_KEYWORDS,
+    lit_levels = 2
+    n_lit = len(literal_texts(lit_levels))
+    ctx.run_shards(literal_shard, [(lo, hi, lit_levels) for lo, hi in runner.shards(n_lit, 16)])
+    card = {"literal spellings x positions (dump round trip)": len(LIT_SPELLINGS) * (len(LIT_POSITIONS) + len(LIT_POSITIONS) * (len(LIT_POSITIONS) - 1)), "adjacent-operators": N_ADJACENT, "terms<=1op x all atoms": N_TERMS1, "keyword positions": N_KEYWORDS,
             "container arities": N_CONTAINERS, "whitespace variants": ws_cardinality(maxtok)}
     for n in range(1, kmax + 1):
         card[f"shapes with {n} operators x {len(rots[n])} rotation(s)"] = nshapes(n) * len(rots[n])
